@@ -454,7 +454,7 @@ func (p *stmtParser) parseInsert() error {
 			return unsupportedf("INSERT value %s", v)
 		}
 		if _, isCol := v.(*pgmodel.ColumnRef); isCol {
-			return sqlErrorf("column %q does not exist", v.String())
+			return codeErrorf("42703", "column %q does not exist", v.String())
 		}
 	}
 	if p.peek().IsPunct(",") {
